@@ -38,6 +38,7 @@ class Contract(object):
         self.assumes = []       # labelled assumptions (listed in evidence)
         self.subst = None
         self.like = None
+        self.uses = []          # names of lemmas assumed (they are proved separately, by induction)
 
 
 class ClassInfo(object):
@@ -75,6 +76,37 @@ class _Subst(ast.NodeTransformer):
         if node.id in self.m:
             return ast.copy_location(ast.Constant(self.m[node.id]), node)
         return node
+
+
+class Lemma(object):
+    def __init__(self, name, node, path):
+        self.name = name
+        self.params = [(a.arg, ptypes.parse_type(a.annotation)) for a in node.args.args]
+        self.requires = []
+        self.ensures = []
+        self.induct = None
+        self.props = []
+        self.uses = []
+        self.file = path
+        self.lineno = node.lineno
+        for st in node.body:
+            if isinstance(st, ast.Expr) and isinstance(st.value, ast.Constant):
+                continue
+            call = st.value
+            k = call.func.id
+            if k == 'requires':
+                self.requires.append(call.args[0])
+            elif k == 'ensures':
+                lab = call.args[1].value if len(call.args) > 1 else 'post%d' % len(self.ensures)
+                self.ensures.append(Clause('ensures', call.args[0], lab, st.lineno))
+            elif k == 'induct':
+                self.induct = call.args[0].id
+            elif k == 'props':
+                self.props = [a.value for a in call.args]
+            elif k == 'uses':
+                self.uses.extend(a.id for a in call.args)
+            else:
+                raise SyntaxError('%s:%d: unknown lemma clause %s' % (path, st.lineno, k))
 
 
 class Registry(object):
@@ -150,13 +182,15 @@ class Registry(object):
                 dname = d.id if isinstance(d, ast.Name) else (d.func.id if isinstance(d, ast.Call) else None)
                 if dname == 'pred':
                     self.preds[node.name] = Pred(node.name, node)
-                elif dname in ('spec', 'lemma'):
+                elif dname == 'lemma':
+                    self.lemmas[node.name] = Lemma(node.name, node, path)
+                elif dname == 'spec':
                     sf = SpecFn(node.name, node, dname)
                     if isinstance(d, ast.Call):
                         for kw in d.keywords:
                             if kw.arg == 'opaque':
                                 sf.opaque = ast.literal_eval(kw.value)
-                    (self.specs if dname == 'spec' else self.lemmas)[node.name] = sf
+                    self.specs[node.name] = sf
                 elif dname in ('contract', 'trusted'):
                     c = self._contract(node, d, path)
                     if dname == 'trusted' and c.trusted is None:
@@ -242,6 +276,8 @@ class Registry(object):
             elif k == 'local_types':
                 for kw in call.keywords:
                     c.local_types[kw.arg] = ptypes.parse_type(kw.value)
+            elif k == 'uses':
+                c.uses.extend(a.id for a in args)
             elif k == 'assumes':
                 c.assumes.append(Clause('assumes', args[0], lab(1, 'assume%d' % len(c.assumes)), st.lineno))
             elif k == 'options':
